@@ -696,6 +696,20 @@ func (x *Exec) noMergeFor(s ast.Stmt) bool {
 
 func (x *Exec) execStmt(st *State, s ast.Stmt) *State {
 	if st != nil && x.spec == 0 && x.noSafety == 0 {
+		if c := x.eng.cf.Contracts[x.qual]; c != nil && len(c.GhostCalls) > 0 && !x.infeasible(st) {
+			switch s.(type) {
+			case *ast.AssignStmt, *ast.ExprStmt, *ast.IncDecStmt, *ast.DeclStmt, *ast.ReturnStmt, *ast.BranchStmt, *ast.SendStmt:
+				txt := x.eng.srcText(s)
+				for _, gc := range c.GhostCalls {
+					if strings.HasPrefix(txt, gc.Anchor) {
+						x.anchorHits["call:"+gc.Anchor]++
+						x.applyLemma(st, gc, s.Pos())
+					}
+				}
+			}
+		}
+	}
+	if st != nil && x.spec == 0 && x.noSafety == 0 {
 		if c := x.eng.cf.Contracts[x.qual]; c != nil && len(c.GhostBefore) > 0 && !x.infeasible(st) {
 			switch s.(type) {
 			case *ast.AssignStmt, *ast.ExprStmt, *ast.IncDecStmt, *ast.DeclStmt, *ast.ReturnStmt, *ast.BranchStmt, *ast.SendStmt:
